@@ -11,6 +11,7 @@ import (
 	"fmt"
 	"net/http"
 	"net/http/httptest"
+	"net/url"
 	"runtime"
 	"sort"
 	"strings"
@@ -294,7 +295,38 @@ func TestVerifC18LegacyFanOut(t *testing.T) {
 
 		parent, cancelParent := context.WithCancel(ctxlog.Context(context.Background(), logger))
 		defer cancelParent()
-		hreq := httptest.NewRequest("GET", "/arvados/v1/collections/"+req, nil).WithContext(parent)
+		// Round 3: about a third of the requests carry a select parameter,
+		// mostly one that does not name manifest_text; the stub clusters
+		// answer with a manifest_text anyway (honest or not).
+		selKind, selQuery := "none", ""
+		if sb := rapid.SliceOfN(rapid.Bool(), 4, 4).Draw(t, "selectBits"); sb[0] && (sb[1] || sb[2]) {
+			k := 0
+			for _, b := range rapid.SliceOfN(rapid.Bool(), 3, 3).Draw(t, "selectWhich") {
+				k <<= 1
+				if b {
+					k |= 1
+				}
+			}
+			sel := []string{
+				`["uuid","portable_data_hash"]`,
+				`["uuid"]`,
+				`["name","owner_uuid"]`,
+				`["portable_data_hash"]`,
+				`["uuid","portable_data_hash","name","modified_at"]`,
+				`["manifest_text"]`,
+				`["uuid","manifest_text","portable_data_hash"]`,
+				`["unsigned_manifest_text"]`,
+			}[k]
+			selKind = "without-manifest_text"
+			if strings.Contains(sel, `"manifest_text"`) {
+				selKind = "with-manifest_text"
+			}
+			selQuery = "?select=" + url.QueryEscape(sel)
+			if sb[3] {
+				selQuery = "?include_trash=false&select=" + url.QueryEscape(sel)
+			}
+		}
+		hreq := httptest.NewRequest("GET", "/arvados/v1/collections/"+req+selQuery, nil).WithContext(parent)
 		hreq.Header.Set("Authorization", "Bearer v2/"+ids[0]+"-gj3su-000000000000000/abcdefghijklmnopqrstuvwxyz0123456789abcdefghijklmn")
 		rec := httptest.NewRecorder()
 		done := make(chan struct{})
@@ -380,7 +412,7 @@ func TestVerifC18LegacyFanOut(t *testing.T) {
 
 		describe := func() string {
 			var sb strings.Builder
-			fmt.Fprintf(&sb, "GET /arvados/v1/collections/%s (%s; true PDH %s) mode=%s settle=%v\n", req, reqKind, truePDH, mode, settle)
+			fmt.Fprintf(&sb, "GET /arvados/v1/collections/%s%s (%s; true PDH %s) mode=%s settle=%v\n", req, selQuery, reqKind, truePDH, mode, settle)
 			if big.Streams > 0 {
 				fmt.Fprintf(&sb, "%s\n", big)
 			}
@@ -393,7 +425,7 @@ func TestVerifC18LegacyFanOut(t *testing.T) {
 			return sb.String()
 		}
 
-		labels := append([]string{"cases", "req:" + reqKind, "local:" + localAns.kind, fmt.Sprintf("remotes:%d", nrem), "mode:" + mode}, decoLabels...)
+		labels := append([]string{"cases", "req:" + reqKind, "local:" + localAns.kind, fmt.Sprintf("remotes:%d", nrem), "mode:" + mode, "select:" + selKind}, decoLabels...)
 		winner := ""
 		// Is the client handed a manifest? Whatever the status line says: a
 		// response whose body is a record with a manifest_text is one (API
@@ -449,6 +481,13 @@ func TestVerifC18LegacyFanOut(t *testing.T) {
 				labels = append(labels, "winner:local")
 			}
 			labels = append(labels, fmt.Sprintf("outcome:%d-with-manifest", resp.StatusCode))
+			if selKind != "none" {
+				if winner == "local" {
+					labels = append(labels, "select:"+selKind+"/manifest-from-local")
+				} else {
+					labels = append(labels, "select:"+selKind+"/manifest-relayed-from-remote")
+				}
+			}
 			if big.Streams > 0 && winner != "local" {
 				labels = append(labels, "big:relayed-from-remote")
 			}
@@ -513,6 +552,17 @@ func TestVerifC18LegacyFanOut(t *testing.T) {
 				labels = append(labels, l)
 			}
 		}
+		if remotesConsulted && selKind != "none" {
+			if invalid200 > 0 {
+				labels = append(labels, "select:"+selKind+"/remote-sends-invalid-manifest")
+			}
+			if anyCertain {
+				labels = append(labels, "select:"+selKind+"/remote-sends-valid-manifest")
+			}
+			if !handed {
+				labels = append(labels, "select:"+selKind+"/no-manifest-relayed")
+			}
+		}
 		if remotesConsulted {
 			labels = append(labels, "remotes-consulted")
 			if anyCertain && invalid200 > 0 {
@@ -540,7 +590,7 @@ func TestVerifC18LegacyFanOut(t *testing.T) {
 		for i := range labels {
 			labels[i] = "fan:" + labels[i]
 		}
-		stats.Case(stats.FP("fanout", honest, req, localAns.kind, ks, releasedOrder, mode), invalid200 > 0 || (winner != "" && winner != "local"), labels...)
+		stats.Case(stats.FP("fanout", honest, req, selQuery, localAns.kind, ks, releasedOrder, mode), invalid200 > 0 || (winner != "" && winner != "local"), labels...)
 		if stats.WantSample("fanout") {
 			stats.Sample("fanout", map[string]interface{}{"req": req, "remotes": ks, "order": releasedOrder, "status": resp.StatusCode, "winner": winner})
 		}
